@@ -457,6 +457,16 @@ fn row(
 	if takes && right && class == vec![1, 11] {
 		fails.push(format!("{}(v{}) refused the right token", m, v));
 	}
+	// a call that refreshes from the node derives keys (the commitments it asks the node about): on an
+	// open masked wallet, with the node reachable and no updater thread doing the refreshing, a wrong or
+	// missing token is refused as such — not answered with the wallet's data as if the node were down
+	let refreshes = v == 1 && ["retrieve_outputs", "retrieve_txs", "retrieve_summary_info", "retrieve_payment_proof"].contains(&m);
+	if refreshes && takes && masked && !right && open && !down && !upd && class != vec![1, 11] && class != vec![2] {
+		fails.push(format!(
+			"{}(refresh_from_node = true) with a wrong token (kind {}) on an open masked wallet was not refused as an invalid token: class {:?}",
+			m, kind, class
+		));
+	}
 	if takes && !open && any != 0 {
 		fails.push(format!("{}(v{}) changed state of a closed wallet", m, v));
 	}
